@@ -37,6 +37,7 @@ type Solver struct {
 	NUnsat    int
 	NUnknown  int
 	Time      time.Duration
+	ModelTime time.Duration
 	TimeoutMs int
 	Log       io.Writer
 	seq       int
@@ -283,8 +284,10 @@ func (s *Solver) CheckModel(ts []*Term, extra ...*Term) (Result, []ModelValue) {
 		for _, t := range ts[i:j] {
 			refs = append(refs, t.ref())
 		}
+		tg := time.Now()
 		s.send("(get-value (" + strings.Join(refs, " ") + "))")
 		lines := s.sync()
+		s.ModelTime += time.Since(tg)
 		txt := strings.Join(lines, " ")
 		if strings.Contains(txt, "(error") {
 			s.Errors = append(s.Errors, txt)
